@@ -105,6 +105,7 @@ type c19Stats struct {
 	Probes       map[string]int               `json:"probes"`       // probe -> queries
 	ProbeEffect  map[string]int               `json:"probe_effect"` // probe:same-route / other-route / no-path
 	Brute        map[string]int               `json:"brute"`
+	ByCfg        map[string]int               `json:"by_cfg"`
 	Unreproduced []json.RawMessage            `json:"unreproduced"`
 	Samples      map[string][]json.RawMessage `json:"samples"`
 	Found        []c19Found                   `json:"found"`
@@ -116,7 +117,7 @@ type c19Stats struct {
 func newC19Stats() *c19Stats {
 	return &c19Stats{BySpace: map[string]int{}, BaseBySpace: map[string]int{}, Results: map[string]int{},
 		HopsHist: map[string]int{}, Classes: map[string]int{}, Feats: map[string]int{}, Probes: map[string]int{},
-		ProbeEffect: map[string]int{}, Brute: map[string]int{}, Samples: map[string][]json.RawMessage{}}
+		ProbeEffect: map[string]int{}, Brute: map[string]int{}, ByCfg: map[string]int{}, Samples: map[string][]json.RawMessage{}}
 }
 
 func addMap(dst, src map[string]int) {
@@ -139,6 +140,7 @@ func (s *c19Stats) merge(o *c19Stats) {
 	addMap(s.Probes, o.Probes)
 	addMap(s.ProbeEffect, o.ProbeEffect)
 	addMap(s.Brute, o.Brute)
+	addMap(s.ByCfg, o.ByCfg)
 	s.Unreproduced = append(s.Unreproduced, o.Unreproduced...)
 	for k, l := range o.Samples {
 		if len(s.Samples[k]) < 2 {
@@ -258,6 +260,7 @@ func (w *c19Worker) eval(c *c19Case) (c19Result, *c19Verdict) {
 	st.BySpace[c.Space]++
 	st.Probes[probe]++
 	st.Results[res.Kind]++
+	st.ByCfg[c.cfgName()]++
 	if w.verbose {
 		fmt.Printf("INFO query %s\n", mustJSON(c))
 		fmt.Printf("INFO real code: %s %s\n", res.Kind, res.Err)
@@ -278,7 +281,7 @@ func (w *c19Worker) eval(c *c19Case) (c19Result, *c19Verdict) {
 		for f := range v.feats {
 			st.Feats[f]++
 		}
-		key := c.Space + "|" + probe + "|n=" + strconv.Itoa(v.hops) + "|" + v.featKey()
+		key := c.Space + "|" + probe + "|" + c.cfgName() + "|n=" + strconv.Itoa(v.hops) + "|" + v.featKey()
 		st.Classes[key]++
 		if st.Classes[key] == 1 && len(st.Samples[c.Space]) < 2 && v.hops >= 2 {
 			st.Samples[c.Space] = append(st.Samples[c.Space], json.RawMessage(mustJSON(map[string]any{"query": c, "route": summarize(res.Route),
@@ -357,6 +360,9 @@ func (w *c19Worker) report(c *c19Case, res c19Result, problems []c19Viol) {
 		return
 	}
 	sig := fmt.Sprintf("%s:%s:%s:n=%d:i=%d", first.Clause, c.Space, coarseProbe(c.Probe), hops, first.Hop)
+	if cn := c.cfgName(); cn != "default" {
+		sig += ":cfg=" + cn
+	}
 	for _, f := range w.st.Found {
 		if f.Sig == sig {
 			return
@@ -446,6 +452,15 @@ func (w *c19Worker) family(base *c19Case, full bool) {
 			st.Brute["both-none"]++
 		}
 	}
+	// The path-finding configuration is a dimension of every base case: the
+	// base query is repeated with MinProbability 0, with attempt cost 0 and with
+	// both (route choice changes; every returned route is judged).
+	for _, cf := range [][2]bool{{true, false}, {false, true}, {true, true}} {
+		d := base.clone()
+		d.MinProb0, d.AttemptCost0 = cf[0], cf[1]
+		d.Probe = "cfg"
+		w.eval(d)
+	}
 	if r0.Route == nil || v0 == nil || !full {
 		return
 	}
@@ -529,13 +544,89 @@ func (w *c19Worker) family(base *c19Case, full bool) {
 			}
 		})
 	}
-	for i := 0; i+1 < len(v0.to); i++ {
-		n := v0.to[i]
-		derive("ignnode:"+strconv.Itoa(n), func(d *c19Case) { d.IgnNodes = []int{n} })
+	// Ignored nodes / pairs reach findPath only as probability 0, so they are
+	// probed with MinProbability at its default and at 0.
+	for _, mp0 := range []bool{false, true} {
+		mp0 := mp0
+		sfx := ""
+		if mp0 {
+			sfx = "-mp0"
+		}
+		for i := 0; i+1 < len(v0.to); i++ {
+			n := v0.to[i]
+			derive("ignnode"+sfx+":"+strconv.Itoa(n), func(d *c19Case) { d.IgnNodes = []int{n}; d.MinProb0 = mp0 })
+		}
+		for i := range v0.from {
+			p := [2]int{v0.from[i], v0.to[i]}
+			derive(fmt.Sprintf("ignpair%s:%d>%d", sfx, p[0], p[1]), func(d *c19Case) { d.IgnPairs = [][2]int{p}; d.MinProb0 = mp0 })
+		}
 	}
-	for i := range v0.from {
-		p := [2]int{v0.from[i], v0.to[i]}
-		derive(fmt.Sprintf("ignpair:%d>%d", p[0], p[1]), func(d *c19Case) { d.IgnPairs = [][2]int{p} })
+
+	// -- "the restricted element lies on the only remaining path": the graph is
+	// cut down to the channels (and hints) of the returned route, so that no
+	// alternative exists (other than, for a self-payment, the same cycle in the
+	// other direction), and every restriction that excludes that route is applied.
+	used := map[uint64]bool{}
+	for _, id := range v0.chanIDs {
+		used[id] = true
+	}
+	onlyPath := func(d *c19Case) {
+		var chans []c19Chan
+		for _, ch := range d.Chans {
+			if used[ch.ID] {
+				chans = append(chans, ch)
+			} else {
+				delete(d.BW, ch.ID)
+			}
+		}
+		d.Chans = chans
+		var hints []c19Hint
+		for _, h := range d.Hints {
+			if used[h.ID] {
+				hints = append(hints, h)
+			}
+		}
+		d.Hints = hints
+	}
+	for _, cf := range [][2]bool{{false, false}, {true, false}, {true, true}} {
+		cf := cf
+		sfx := map[[2]bool]string{{false, false}: "", {true, false}: "-mp0", {true, true}: "-mp0ac0"}[cf]
+		set := func(d *c19Case) { onlyPath(d); d.MinProb0, d.AttemptCost0 = cf[0], cf[1] }
+		if sfx == "" {
+			// control: the cut-down graph alone must still give a valid route
+			derive("only", set)
+		}
+		for i := 0; i+1 < len(v0.to); i++ {
+			n := v0.to[i]
+			derive("only-ignnode"+sfx+":"+strconv.Itoa(n), func(d *c19Case) { set(d); d.IgnNodes = []int{n} })
+		}
+		for i := range v0.from {
+			p := [2]int{v0.from[i], v0.to[i]}
+			derive(fmt.Sprintf("only-ignpair%s:%d>%d", sfx, p[0], p[1]), func(d *c19Case) { set(d); d.IgnPairs = [][2]int{p} })
+		}
+		if cf[1] {
+			continue
+		}
+		if base.Blind == nil {
+			// a last hop that is not the route's penultimate node
+			pen := v0.from[len(v0.from)-1]
+			for n := 0; n < base.Nodes; n++ {
+				if n != pen && (n != base.Target || base.Source == base.Target) {
+					n := n
+					derive("only-lasthop"+sfx+":"+strconv.Itoa(n), func(d *c19Case) { set(d); d.LastHop = &n })
+					break
+				}
+			}
+		}
+		// an outgoing channel set that does not contain the route's local channel
+		other := uint64(999)
+		for _, id := range local {
+			if !used[id] {
+				other = id
+				break
+			}
+		}
+		derive("only-outchan"+sfx+":"+strconv.FormatUint(other, 10), func(d *c19Case) { set(d); d.OutChans = []uint64{other} })
 	}
 
 	// -- boundaries around the amounts of the returned route
@@ -1235,26 +1326,27 @@ func c19Parent(t *testing.T, run *evid.Run, cfg tierCfg) {
 		"soundness only: optimality / completeness of pathfinding is not judged (reported as brute_force_comparison)",
 	)
 	cov := map[string]any{
-		"evaluations":              total.Queries,
-		"base_cases":               total.BaseCases,
-		"routes_validated":         total.Routes,
-		"link_crosschecks":         total.Xchecks,
-		"distinct_nontrivial":      nontrivial,
-		"distinct_outcome_classes": len(total.Classes),
-		"rule":                     "distinct (space, probe kind, hop count, oracle feature set) classes of returned-and-validated routes that have a forwarding node (>= 2 hops) or an active limit or a boundary met with equality; features = which clauses were exercised (fee exact/overpaid/floored, inbound discount/surcharge, min/max/capacity/bandwidth tight, delta padded by the unifier, parallel channels, limits active/tight, restrictions, hint, blinded, self-payment, payload tight)",
-		"samples":                  samples,
-		"exhaustive":               exhaustive,
-		"queries_by_space":         total.BySpace,
-		"base_cases_by_space":      total.BaseBySpace,
-		"result_kinds":             total.Results,
-		"route_hops_histogram":     total.HopsHist,
-		"oracle_feature_counts":    total.Feats,
-		"queries_by_probe":         total.Probes,
-		"probe_effects":            total.ProbeEffect,
-		"brute_force_comparison":   total.Brute,
-		"generated_base_cases":     total.Generated,
-		"worker_processes":         workers,
-		"worker_wall_s":            walls,
+		"evaluations":                   total.Queries,
+		"base_cases":                    total.BaseCases,
+		"routes_validated":              total.Routes,
+		"link_crosschecks":              total.Xchecks,
+		"distinct_nontrivial":           nontrivial,
+		"distinct_outcome_classes":      len(total.Classes),
+		"rule":                          "distinct (space, probe kind, hop count, oracle feature set) classes of returned-and-validated routes that have a forwarding node (>= 2 hops) or an active limit or a boundary met with equality; features = which clauses were exercised (fee exact/overpaid/floored, inbound discount/surcharge, min/max/capacity/bandwidth tight, delta padded by the unifier, parallel channels, limits active/tight, restrictions, hint, blinded, self-payment, payload tight)",
+		"samples":                       samples,
+		"exhaustive":                    exhaustive,
+		"queries_by_space":              total.BySpace,
+		"base_cases_by_space":           total.BaseBySpace,
+		"result_kinds":                  total.Results,
+		"route_hops_histogram":          total.HopsHist,
+		"oracle_feature_counts":         total.Feats,
+		"queries_by_probe":              total.Probes,
+		"probe_effects":                 total.ProbeEffect,
+		"brute_force_comparison":        total.Brute,
+		"queries_by_pathfinding_config": total.ByCfg,
+		"generated_base_cases":          total.Generated,
+		"worker_processes":              workers,
+		"worker_wall_s":                 walls,
 	}
 	if len(capsHit) > 0 {
 		cov["caps_hit"] = capsHit
